@@ -106,7 +106,7 @@ def run_case(scn, drv):
     V = float(res.value)
     tol = 2e-6 * max(1.0, abs(V), float(np.abs(op.c).max()) * float(np.abs(res.x).max() if len(res.x) else 1))
     if solver in ('SCS', 'OSQP'):
-        tol *= 5000.0        # first-order solvers: values and duals to about 1e-3 .. 1e-2 relative
+        tol = tol * 5000.0 + 0.05 * max(1.0, float(np.abs(op.c).max()))    # first-order solvers: values and duals to about 1e-3 .. 1e-2 relative
     pr = out['prices']
     prices_by_pair = {}
     for (t, n) in op.map_nodal_restr:
